@@ -95,7 +95,10 @@ type c24Case struct {
 	vsigner, vrfT, sealer, sealT int
 	shape, eng, dup              int
 	// manager cases: authority i holds key (koff+i)%8; the header hangs under a given parent
-	koff                         int
+	koff int
+	// layout cases (c24_layout_test.go)
+	layout                       string
+	preSel                       int
 	hasParent                    bool
 	parent                       common.Hash
 	number                       uint
@@ -217,6 +220,9 @@ func (c *c24Case) header() *types.Header {
 	}
 	h.StateRoot = common.Hash{2, byte(c.idx)}
 	h.ExtrinsicsRoot = common.Hash{3}
+	if c.layout != "" {
+		return c.layoutHeader(h)
+	}
 	preEng, sealEng := types.BabeEngineID, types.BabeEngineID
 	if c.eng == 1 {
 		preEng = types.ConsensusEngineID{'a', 'u', 'r', 'a'}
@@ -405,6 +411,8 @@ func c24Run(line string) string {
 		return out
 	case "own":
 		return c24Own(f)
+	case "d":
+		return c24RunD(f)
 	}
 	return "bad-op"
 }
@@ -505,6 +513,9 @@ func c24Gen(r *vhRng) string {
 	}
 	if r.Chance(1, 5) {
 		return c24GenMgr(r)
+	}
+	if r.Chance(1, 4) {
+		return c24GenD(r)
 	}
 	c := &c24Case{}
 	c24Cfg(r, c)
